@@ -119,7 +119,11 @@ def strip_generics(s):
 
 
 _CL = re.compile(r'\{closure@([^{}]*?)\}')
-_VCL = re.compile(r'::\{closure#(\d+)\}')
+_VCL = re.compile(r'(\w+|\{closure#\d+\})(?:<[^<>]*(?:<[^<>]*>[^<>]*)*>)?::\{closure#(\d+)\}')
+
+
+def _pn(parent):
+    return parent.replace('{closure#', 'closure').replace('}', '')
 
 
 def disambiguate_closures(text, vtext):
@@ -143,11 +147,12 @@ def disambiguate_closures(text, vtext):
         found = [s for s in _CL.findall(ln) if s in amb]
         if not found:
             continue
-        m = re.match(r'^fn .*?::\{closure#(\d+)\}\(', ln)
+        m = re.match(r'^fn (?:.*::)?(\w+|\{closure#\d+\})::\{closure#(\d+)\}\(', ln)
         if m:
-            ns = {m.group(1)}
+            ns = {'%s.%s' % (_pn(m.group(1)), m.group(2))}
         else:
-            ns = set(_VCL.findall(vlines[i]))
+            # the closure is identified by its parent function and its index in it (one macro used in two functions gives equal spans and equal indices)
+            ns = set('%s.%s' % (_pn(a_), b_) for a_, b_ in _VCL.findall(vlines[i]))
         if len(ns) != 1:
             continue        # leave ambiguous; the executor reports Unsupported if it is ever needed
         n = ns.pop()
@@ -198,7 +203,8 @@ class Program(object):
         self.closure_bodies = {}
         for span, names in self.closure_spans.items():
             for nm in names:
-                n = re.search(r'\{closure#(\d+)\}$', nm).group(1)
+                mm_ = re.search(r'(?:^|::)(\w+|\{closure#\d+\})::\{closure#(\d+)\}$', nm)
+                n = '%s.%s' % (_pn(mm_.group(1)), mm_.group(2)) if mm_ else re.search(r'\{closure#(\d+)\}$', nm).group(1)
                 b = self.by_name[strip_generics(nm)][0]
                 self.closure_bodies[span + '#' + n] = b
                 if len(names) == 1:
